@@ -1015,8 +1015,11 @@ func (t *tScreen) showCursor() {
 		if t.cursorColor == ColorReset {
 			t.TPuts(t.cursorFg)
 		} else if t.cursorColor.Valid() {
-			r, g, b := t.cursorColor.RGB()
-			t.TPuts(t.ti.TParm(t.cursorRGB, int(r), int(g), int(b)))
+			// (a palette index beyond the colour table has no RGB
+			// value: there is nothing to send for it)
+			if r, g, b := t.cursorColor.RGB(); r >= 0 && g >= 0 && b >= 0 {
+				t.TPuts(t.ti.TParm(t.cursorRGB, int(r), int(g), int(b)))
+			}
 		}
 	}
 	t.cx = x
